@@ -31,7 +31,8 @@ from cherab.core.model.laser import (SeldenMatobaThomsonSpectrum, ConstantSpectr
 
 from ..core import Violation, HarnessError, arrays_close, close
 from ..machine import Machine
-from ..seams.provider import SimAtomicData, _u
+from ..seams.provider import SimAtomicData, SimGaunt, _u
+from cherab.core.math.integrators import GaussianQuadrature
 from ..seams.simfunc import SimFault, SimInterrupt
 from .c18_laser import PROFILE_ATTRS as LP_ATTRS, SPECTRUM_ATTRS as LS_ATTRS, construct as laser_construct
 
@@ -148,7 +149,12 @@ def gen_plasma_model(rng, species):
     if u < 0.7:
         return {"cls": "ThermalCXLine", "line": gen_line(rng, species), "ls": gen_lineshape(rng)}
     if u < 0.85:
-        return {"cls": "Bremsstrahlung"}
+        m = {"cls": "Bremsstrahlung"}
+        if rng.random() < 0.35:
+            m["gaunt"] = round(rng.uniform(0.7, 1.6), 3)           # a user-provided Gaunt factor
+        if rng.random() < 0.25:
+            m["quad"] = [rng.choice([1e-5, 1e-3]), rng.choice([50, 12]), rng.choice([1, 3])]
+        return m
     s = rng.choice(species) if species else {"el": "C", "ch": 5}
     ch = min(s["ch"], {"H": 0, "D": 0, "He": 1, "C": 5, "Ne": 9}[s["el"]])
     return {"cls": "TotalRadiatedPower", "el": s["el"], "ch": ch}
@@ -336,6 +342,11 @@ def apply_spec(sp, op):
             if op.get("keep"):
                 sp.setdefault("_kept_pm", []).extend(ps["models"])
             ps["models"] = []
+        elif k == "p.model.attr":
+            idx = [j for j, m in enumerate(ps["models"]) if m["cls"] == "Bremsstrahlung"]
+            if idx:
+                j = idx[op["which"] % len(idx)]
+                ps["models"][j] = dict(ps["models"][j], **{op["attr"]: op["value"]})
         elif k == "p.models.permute":
             if ps["models"]:
                 idx = []
@@ -434,10 +445,13 @@ def apply_spec(sp, op):
         if kept and len(bs["models"]) < 4:
             bs["models"].append(kept.pop(op["which"] % len(kept)))
     elif k == "b.model.line":
-        idx = [j for j, m in enumerate(bs["models"]) if m["cls"] == "BeamCXLine"]
+        idx = [j for j, m in enumerate(bs["models"])]
         if idx:
             j = idx[op["which"] % len(idx)]
-            bs["models"][j] = dict(bs["models"][j], line=op["line"])
+            if bs["models"][j]["cls"] == "BeamCXLine":
+                bs["models"][j] = dict(bs["models"][j], line=op["line"])
+            else:
+                bs["models"][j] = dict(bs["models"][j], line={"el": op.get("bel", "D"), "ch": 0, "tr": [3, 2]})
     elif k == "b.integrator":
         bs["integrator_step"] = op["step"]
     elif k == "b.transform":
@@ -539,7 +553,12 @@ def mk_plasma_model(m):
     if c == "ThermalCXLine":
         return ThermalCXLine(mk_line(m["line"]), **mk_lineshape_kw(m.get("ls")))
     if c == "Bremsstrahlung":
-        return Bremsstrahlung()
+        kw = {}
+        if m.get("gaunt") is not None:
+            kw["gaunt_factor"] = SimGaunt(m["gaunt"])
+        if m.get("quad") is not None:
+            kw["integrator"] = GaussianQuadrature(relative_tolerance=m["quad"][0], max_order=m["quad"][1], min_order=m["quad"][2])
+        return Bremsstrahlung(**kw)
     if c == "TotalRadiatedPower":
         return TotalRadiatedPower(EL[m["el"]], m["ch"])
     raise HarnessError(c)
@@ -776,7 +795,7 @@ class SceneMachine(Machine):
 
     def _kinds(self, spec):
         k = ["p.bfield", "p.electron", "p.comp.add", "p.comp.set", "p.comp.set.bad", "p.comp.clear", "p.geometry", "p.geomtransform", "p.integrator",
-             "p.models.set", "p.models.add", "p.models.clear", "p.models.readd", "p.models.set.bad", "p.models.permute", "p.reassign", "p.caller.mutate", "p.unset",
+             "p.models.set", "p.models.add", "p.models.clear", "p.models.readd", "p.models.set.bad", "p.models.permute", "p.model.attr", "p.reassign", "p.caller.mutate", "p.unset",
              "p.atomic_data", "p.transform", "p.parent",
              "frame.transform", "p.recreate"]
         if spec["beams"]:
@@ -836,6 +855,12 @@ class SceneMachine(Machine):
             op["which"] = rng.randrange(8)
         elif kind == "p.models.permute":
             op["order"] = [rng.randrange(4) for _ in range(rng.randint(1, 4))]
+        elif kind == "p.model.attr":
+            op["which"] = rng.randrange(4)
+            if rng.random() < 0.6:
+                op["attr"], op["value"] = "gaunt", rng.choice([None, None, round(rng.uniform(0.7, 1.6), 3)])
+            else:
+                op["attr"], op["value"] = "quad", [rng.choice([1e-5, 1e-3]), rng.choice([50, 12]), rng.choice([1, 3])]
         elif kind == "p.models.set.bad":
             op["models"] = [gen_plasma_model(rng, comp) for _ in range(rng.randint(1, 3))]
             op["junk_at"] = rng.randrange(4)
@@ -941,6 +966,7 @@ class SceneMachine(Machine):
                 op["what"] = rng.choice(["atomic_data", "plasma", "integrator", "element"])
             elif kind == "b.model.line":
                 op["which"] = rng.randrange(4)
+                op["bel"] = rng.choice(["D", "H"])
                 op["line"] = gen_line(rng, [s for s in bcomp if s["ch"] > 0] or bcomp)
             elif kind == "b.integrator":
                 op["step"] = rng.choice([0.02, 0.03, 0.05, 0.07])
@@ -1306,6 +1332,17 @@ class SceneMachine(Machine):
                     del lst[0]
                 env.probe("caller_container_mutated")
                 return "raised"
+            elif k == "p.model.attr":
+                idx = [j for j, m in enumerate(ps["models"]) if m["cls"] == "Bremsstrahlung"]
+                if not idx:
+                    return "noop"
+                model = list(p.models)[idx[op["which"] % len(idx)]]
+                if op["attr"] == "gaunt":
+                    model.gaunt_factor = SimGaunt(op["value"]) if op["value"] is not None else None
+                else:
+                    q = op["value"]
+                    model.integrator = GaussianQuadrature(relative_tolerance=q[0], max_order=q[1], min_order=q[2])
+                env.probe("model_attribute_changed_in_place")
             elif k == "p.models.permute":
                 cur = list(p.models)
                 if not cur:
@@ -1460,11 +1497,14 @@ class SceneMachine(Machine):
             b.models.clear()
         elif k == "b.model.line":
             ms = list(b.models)
-            idx = [j for j, m in enumerate(bs["models"]) if m["cls"] == "BeamCXLine"]
+            idx = [j for j, m in enumerate(bs["models"])]
             if not idx:
                 return "noop"
             j = idx[op["which"] % len(idx)]
-            ms[j].line = mk_line(op["line"])
+            if bs["models"][j]["cls"] == "BeamCXLine":
+                ms[j].line = mk_line(op["line"])
+            else:
+                ms[j].line = mk_line({"el": op.get("bel", "D"), "ch": 0, "tr": [3, 2]})
         elif k == "b.integrator":
             if op.get("inplace"):
                 b.integrator.step = op["step"]
